@@ -156,7 +156,8 @@ for name, enc, nat in (("unsigned_leb128_decode", uenc, True), ("signed_leb128_d
         replay_args=_replay_dec(enc),
         sample_inputs=(lambda nat: lambda g, rnd: [
             {"v": (abs(v) if nat else v), "rest": {"__bytes__": [rnd.randrange(256) for _ in range(rnd.choice([0, 1, 3]))]}}
-            for v in [0, 1, -1, 63, 64, -64, -65, 127, 128, -128, -129, 624485, -624485, 2**32, -2**63, rnd.randint(-2**70, 2**70)]])(nat),
+            for v in [0, 1, -1, 63, 64, -64, -65, 127, 128, -128, -129, 624485, -624485, 2**32, -2**63, rnd.randint(-2**70, 2**70),
+                      2**125, -2**125, -2**125 - 1, 2**126, -2**126, -2**127, 2**127 - 1, -2**128, 2**128, -2**200 + 12345, 2**200 - 12345, rnd.randint(-2**300, 2**300)]])(nat),
         ensures=lambda e: [
             ("result == v", e.result == e.v),
             ("remaining == rest", seq_eq(e.data.remaining(), e.old.rest)),
